@@ -1272,6 +1272,10 @@ impl ParserListener for Screen {
                             if let (Some(r), Some(g), Some(b)) =
                                 (attrs_list.pop(), attrs_list.pop(), attrs_list.pop())
                             {
+                                // Components above 255 do not form a colour.
+                                if r > 255 || g > 255 || b > 255 {
+                                    continue;
+                                }
                                 replace.insert(
                                     key.to_string(),
                                     format!("{:02x}{:02x}{:02x}", r, g, b),
